@@ -231,6 +231,19 @@ def fix_minint(s):
 
 
 def run(chk):
+    holder = {}
+    try:
+        return _run(chk, holder)
+    finally:   # never leave the row-by-row TLC process behind (it waits on stdin)
+        fu = holder.get("roweval")
+        if fu is not None:
+            try:
+                fu.result(timeout=600).close()
+            except Exception:
+                pass
+
+
+def _run(chk, holder):
     specsrc = os.path.join(V.SPEC, "C03")
     quick = chk.quick()
     tier, seed = chk.tier, chk.seed
@@ -250,6 +263,7 @@ def run(chk):
     pool = concurrent.futures.ThreadPoolExecutor(max_workers=5)
     build = pool.submit(V.build_driver, "c03drv", chk.bindir)
     roweval = pool.submit(RowEval, specsrc, chk.tmp, tier, seed)   # loads the table in a second TLC process meanwhile
+    holder["roweval"] = roweval
     res = V.tlc(work, "MCOpsOracle", cfg="MCOpsOracle.cfg", workers=1, timeout=1500 if quick else 3000,
                 deadlock=False, extra=["-nowarning"], heap="4g", jvm=JVM)
     chk.add_tlc("MCOpsOracle (%s): every defined row evaluated by TLC; PrintCanonical, DefinedHasValue" % tier, res)
